@@ -74,6 +74,39 @@ theorem redirects_stay_on_origin (dec : List Nat) (cts : List Bytes) (pol : Poli
         all_goals exact hr
       exact key r (this ▸ hr')
 
+/-- **Origin binding.** Resolving did:web:X — for EVERY `did.DID` value, every server behaviour, strict or not — either
+    makes no request at all, or `DIDToURL` succeeded and: the host `H` is exactly the percent-decoded first component of
+    the identifier; `H`'s host name is not an IP address; the first request is https, carries no user-info and goes to
+    `H` (an empty port dropped); and EVERY request (redirect hops included) is https to that same host. -/
+theorem fetch_origin_bound (dec : List Nat) (cts : List Bytes) (pol : Policy) (strict : Bool) (d : DID)
+    (srv : Nat → Req → Option Resp) (hp : pol.sameOriginRedirect = true) :
+    (resolveWeb dec cts pol strict d srv).1 = [] ∨
+    ∃ u H, didToURL dec d = .ok u ∧ pathUnescape (cut cColon d.id).1 = .ok H ∧ isIP (hostname H) = false ∧
+      (firstReq u).scheme = sHttps ∧ (firstReq u).user = false ∧ (firstReq u).host = removeEmptyPort H ∧
+      ∀ r ∈ (resolveWeb dec cts pol strict d srv).1, r.scheme = sHttps ∧ r.host = removeEmptyPort H := by
+  cases hu : didToURL dec d with
+  | err e => left; unfold resolveWeb; split <;> simp [hu]
+  | panic e => left; unfold resolveWeb; split <;> simp [hu]
+  | ok u =>
+    right
+    obtain ⟨_, hs, huser, _, hH, hip⟩ := didToURL_origin dec d u hu
+    refine ⟨u, u.host, rfl, hH, hip, by simp [firstReq, hs], by simp [firstReq, huser], rfl, ?_⟩
+    intro r hr
+    have := redirects_stay_on_origin dec cts pol strict d srv hp u hu hs r hr
+    exact ⟨this.1, by rw [this.2]; rfl⟩
+
+/-- non-vacuity: did:web:a%3A8443:x resolves to https://a:8443/x and is fetched from host "a:8443" -/
+example : ∃ u, didToURL Facts.C18.decodeSet { method := sWeb, id := [97, 37, 51, 65, 56, 52, 52, 51, 58, 120] } = .ok u ∧
+    (firstReq u).host = [97, 58, 56, 52, 52, 51] ∧ (firstReq u).path = [47, 120] ++ sDidJson := by
+  refine ⟨_, rfl, ?_, ?_⟩ <;> decide
+
+/-- hostile shapes are refused before any request: user-info, IPv4, bracketed IPv6, encoded slash in the host -/
+example : didToURL Facts.C18.decodeSet { method := sWeb, id := [117, 37, 52, 48, 97] } = .err "host" ∧             -- u%40a
+    didToURL Facts.C18.decodeSet { method := sWeb, id := [49, 46, 50, 46, 51, 46, 52] } = .err "ip" ∧               -- 1.2.3.4
+    didToURL Facts.C18.decodeSet { method := sWeb, id := [37, 53, 66, 37, 51, 65, 37, 51, 65, 49, 37, 53, 68] } = .err "ip" ∧  -- %5B%3A%3A1%5D
+    didToURL Facts.C18.decodeSet { method := sWeb, id := [97, 37, 50, 70, 98] } = .err "host" := by                  -- a%2Fb
+  refine ⟨?_, ?_, ?_, ?_⟩ <;> decide
+
 /-- In strict mode no request of the strict client — first or redirected — uses a scheme other than https. -/
 theorem strict_client_https_only (pol : Policy) (srv : Nat → Req → Option Resp) (first : Req)
     (hp : pol.strictHttpsRedirect = true) :
